@@ -22,7 +22,7 @@ RULE = ("cases = curated + random-grammar assignments with >= 1 compressed outpu
         "support is a proper subset of the output space at some compressed level (so a phantom was possible) ; distinct by case")
 
 PLAN = {
-    "quick": dict(shards=12, fmt=8, inp=3, rnd=1300, draws=3, jit_every=4, lattice=480),
+    "quick": dict(shards=12, fmt=8, inp=3, rnd=1300, draws=3, jit_every=4, lattice=240),
     "thorough": dict(shards=16, fmt=60, inp=4, rnd=20000, draws=4, jit_every=2, lattice=16000),
 }
 
@@ -118,7 +118,7 @@ def shard(rec, tier, index, n_shards):
         do(case)
     # bounded-exhaustive small shapes (engine.small_shapes): a seeded third in quick, all in thorough
     third = 1 if tier == "thorough" else 3
-    for case in engine.small_shape_cases(rng, index + n_shards * (rec.seed % third), n_shards * third, draws=4):
+    for case in engine.small_shape_cases(rng, index + n_shards * (rec.seed % third), n_shards * third, draws=3):
         rec.count("small_shape_cases")
         do(case)
 
